@@ -57,13 +57,17 @@ E_ASSUMPTIONS = [
 
 PROPERTIES = {
     "C03": dict(G_HTTPGEN,
-                overlay={"internal/httpgen/zz_verif_c03.go": "harness/c03/c03_routes.go"},
+                overlay={"internal/httpgen/zz_verif_c03.go": "harness/c03/c03_routes.go",
+                         "internal/httpgen/zz_verif_c12_common.go": "harness/c12/c12_common.go",
+                         "internal/httpgen/zz_verif_c14.go": "harness/c14/c14_codecs.go",
+                         "internal/httpgen/zz_verif_c03p.go": "harness/c03/c03_placement.go"},
                 harnesses=[
                     dict(func="VerifC03Routes", reach=["C03/route", "C03/default-path-region"],
-                         quick=dict(budget=400), thorough=dict(budget=1500)),
+                         quick=dict(budget=400, parts=4), thorough=dict(budget=1500, parts=8)),
+                    dict(func="VerifC03Placement", reach=["C03/placement/decided", "C03/placement/kf-body-verb"], quick=dict(budget=200), thorough=dict(budget=600)),
                 ],
                 bounds_text={
-                    "quick": "1 service x 1 method; 9 base-path shapes x (no config | 11 path shapes incl. 0..3 variables, adjacent/first/last) x 4 method-name shapes x verb = any int32; path/base segments symbolic over [a-z_]{1..3}",
+                    "quick": "placement: one RPC with a path variable, a (renamed or not) query-annotated field of 4 kinds and a body field, 6 verbs, all five generators' emitted parameter handling compared. routes: 1 service x 1 method; 9 base-path shapes x (no config | 11 path shapes incl. 0..3 variables, adjacent/first/last) x 4 method-name shapes x verb = any int32; path/base segments symbolic over [a-z_]{1..3}",
                     "thorough": "as quick with segments [a-z_]{1..6}",
                 },
                 assumptions=["base paths containing {variables} are outside the property's quantifier",
